@@ -115,7 +115,7 @@ PROPERTIES = {
         assumptions=["equivalence of whole plugged and unplugged packages on scripted responses is sampled, not proved"],
     ),
     "C03": dict(
-        modules=["contracts.c03_arguments", "contracts.c11_clients", "contracts.c06_input_types", "contracts.c06_defaults", "contracts.c07_scalars"],
+        modules=["contracts.c03_arguments", "contracts.c11_clients", "contracts.c06_input_types", "contracts.c06_defaults", "contracts.c07_scalars", "contracts.c13_ws"],
         bounded=[_bounded.lazy("contracts.e2e_variables", "bounded_method_locals"), _bounded.lazy("contracts.e2e_variables", "bounded_variables"),
                  _bounded.lazy("contracts.c11_multipart", "bounded_separation")],
         explanation="variable annotation translator, local-name freshness, run-time value conversion; whole calls by an end-to-end bounded stand-in with graphql-core's variable coercion",
